@@ -114,10 +114,16 @@ theorem flatMap_replicate_add [AddLaws S] (g : Nat) : ∀ (u v : List S), u.leng
     congr 1
     simp [List.zipWith_replicate]
 
+theorem flatMap_replicate_smul (α : S) (g : Nat) : ∀ (u : List S),
+    (u.map (α * ·)).flatMap (List.replicate g) = (u.flatMap (List.replicate g)).map (α * ·)
+  | [] => rfl
+  | a :: u => by
+    simp only [List.map_cons, List.flatMap_cons, List.map_append, List.map_replicate, flatMap_replicate_smul α g u]
+
 /-- the closure of a `sum(k)` node -/
-theorem vjp_lin_sum [AddLaws S] [MulLaws S] (k : Nat) (a self : Tensor S) (f0 : Bool) (ha : OperandOK a)
+theorem vjp_lin_sum [AddLaws S] [MulLaws S] [CommLaws S] (k : Nat) (a self : Tensor S) (f0 : Bool) (ha : OperandOK a)
     (hk : 1 ≤ k) (hkr : k ≤ a.dims.length) :
-    VjpLin (vjp (.sum k) [a] self) [f0] (a.dims.take (a.dims.length - k) ++ [1]) [a.dims] := by
+    VjpLinear (vjp (.sum k) [a] self) [f0] (a.dims.take (a.dims.length - k) ++ [1]) [a.dims] := by
   generalize hlead : a.dims.take (a.dims.length - k) = lead
   generalize hblk : a.dims.drop (a.dims.length - k) = blk
   have hsplit : a.dims = lead ++ blk := by rw [← hlead, ← hblk, List.take_append_drop]
@@ -126,7 +132,7 @@ theorem vjp_lin_sum [AddLaws S] [MulLaws S] (k : Nat) (a self : Tensor S) (f0 : 
   have hll : lead.length = a.dims.length - k := by rw [← hlead, List.length_take]; omega
   refine vjpLin_unary (fun x => slicedOp [x] (sumBackOp (prod (a.dims.drop (x.dims.length - 1)))) x.dims a.dims 1 0)
     (fun x => rfl) ?_
-  refine ⟨a.dims, fun x => ⟨a.dims, x.vals.flatMap (List.replicate (prod blk))⟩, ha.1.1, ha.1.1, Fits_self _, ?_, ?_⟩
+  refine ⟨a.dims, fun x => ⟨a.dims, x.vals.flatMap (List.replicate (prod blk))⟩, ha.1.1, ha.1.1, Fits_self _, ?_, ?_, ?_⟩
   · intro x hx
     have hxl : x.dims.length - 1 = a.dims.length - k := by rw [hx.1]; simp [hll]
     have hx' : x.vals.length = prod lead := by rw [hx.2, prod_append]; simp [prod]
@@ -140,5 +146,9 @@ theorem vjp_lin_sum [AddLaws S] [MulLaws S] (k : Nat) (a self : Tensor S) (f0 : 
     simp only [tadd]
     congr 1
     exact flatMap_replicate_add _ _ _ (by rw [hx.2, hy.2])
+  · intro α x _
+    simp only [tsmul]
+    congr 1
+    exact flatMap_replicate_smul α _ _
 
 end Corgi
